@@ -448,11 +448,17 @@ impl log4rs::config::Deserialize for CapDeser {
     }
 }
 
+/// The tag of appender `a` in document version `version`. Bit 32 of the version widens the blank run inside
+/// the tag, so two documents can differ in nothing but the amount of white space inside a quoted value.
+fn tag_of(a: &str, version: u64) -> String {
+    format!("{}{}#v{}", a, if version >> 32 & 1 == 1 { "   " } else { " " }, version & 0xffff_ffff)
+}
+
 fn render_doc(spec: &ConfSpec, rate_secs: Option<u64>, version: u64, fmt: u64) -> String {
     // appender tags carry the document version, so a delivery identifies the document that built its appender
     let mut apps = serde_json::Map::new();
     for a in &spec.appenders {
-        apps.insert(a.clone(), json!({"kind": "cap", "tag": format!("{} #v{}", a, version)}));
+        apps.insert(a.clone(), json!({"kind": "cap", "tag": tag_of(a, version)}));
     }
     let mut loggers = serde_json::Map::new();
     for l in &spec.loggers {
@@ -529,7 +535,7 @@ fn reloader_history(rep: &mut Report, rng: &mut Rng, idx: u64) {
         for t in targets {
             for lvl in [Level::Error, Level::Info, Level::Trace] {
                 let got = deliver(&logger, &sink, &t, lvl, 1);
-                let mut want: Vec<String> = active.expected(&t, lvl).iter().map(|a| format!("{} #v{}", a, v)).collect();
+                let mut want: Vec<String> = active.expected(&t, lvl).iter().map(|a| tag_of(a, v)).collect();
                 want.sort();
                 if got != want {
                     rep.violation("C15:reloader:active-configuration-differs", json!({"edit_history": ops.join(" "),
@@ -548,7 +554,7 @@ fn reloader_history(rep: &mut Report, rng: &mut Rng, idx: u64) {
     for _ in 0..steps {
         let Some(cur_rate) = rate else { break };
         mtime += Duration::from_secs(1 + rng.below(5));
-        let kind = rng.below(14);
+        let kind = rng.below(15);
         // what is on disk after the edit: None = deleted
         let mut on_disk: Option<String> = Some(text.clone());
         let mut new_valid: Option<(ConfSpec, Option<u64>, u64)> = None;
@@ -613,6 +619,16 @@ fn reloader_history(rep: &mut Report, rng: &mut Rng, idx: u64) {
                 // only the appender tags change, i.e. text after " #" inside quoted values (not a comment!)
                 ops.push("change-only-behind-a-hash-sign-inside-quoted-values".into());
                 version += 1;
+                let spec = active.clone();
+                let t = render_doc(&spec, rate, version, fmt);
+                write(&t, mtime);
+                on_disk = Some(t);
+                new_valid = Some((spec, rate, version));
+            }
+            14 => {
+                // nothing changes but the length of a run of blanks inside the quoted appender tags
+                ops.push("change-only-the-blanks-inside-quoted-values".into());
+                version ^= 1 << 32;
                 let spec = active.clone();
                 let t = render_doc(&spec, rate, version, fmt);
                 write(&t, mtime);
